@@ -342,6 +342,7 @@ func pooledParamMapRule(r *Run) {
 	visit := callsMatching(cl, false, nameHasSuffix("fasthttp.VisitHeaderParams"))
 	r.need(len(visit) == 1, "the callback fills the map with VisitHeaderParams")
 	// a range over a map whose body deletes must sit on every path from Get to the fill
+	// … or the clear builtin applied to the map that came out of the pool
 	var clearHdr *ssa.BasicBlock
 	for _, mr := range mapRangesIn(cl) {
 		for b := range mr.Loop {
@@ -352,17 +353,33 @@ func pooledParamMapRule(r *Run) {
 			}
 		}
 	}
-	okClear := clearHdr != nil
-	if okClear {
-		_, hit := reach(pointAfter(get.Instr), func(in ssa.Instruction) bool { return in == visit[0].Instr }, nil, func(in ssa.Instruction) bool { return in.Block() == clearHdr })
-		okClear = hit == nil
+	fromGet := func(v ssa.Value) bool {
+		return dependsOn(v, func(x ssa.Value) bool { return x == get.Value() }) != nil
 	}
+	isClearing := func(in ssa.Instruction) bool {
+		if clearHdr != nil && in.Block() == clearHdr {
+			return true
+		}
+		if ci, ok := in.(ssa.CallInstruction); ok && calleeName(ci.Common()) == "builtin:clear" && len(ci.Common().Args) == 1 {
+			return fromGet(ci.Common().Args[0])
+		}
+		return false
+	}
+	_, hitC := reach(pointAfter(get.Instr), func(in ssa.Instruction) bool { return in == visit[0].Instr }, nil, isClearing)
+	okClear := hitC == nil
 	puts := callsMatching(f, true, nameIs("(*sync.Pool).Put"))
 	// alternative discipline: cleared before every Put (in the function doing the Put)
 	okPutClear := len(puts) > 0
 	for _, p := range puts {
 		v := stripValue(p.Common.Args[1])
 		cleared := false
+		for _, c := range callsMatching(p.Fn, false, nameIs("builtin:clear")) {
+			if len(c.Common.Args) == 1 && stripValue(c.Common.Args[0]) == v {
+				if _, hit := reach(entryOf(p.Fn), func(x ssa.Instruction) bool { return x == p.Instr }, nil, func(x ssa.Instruction) bool { return x == c.Instr }); hit == nil {
+					cleared = true
+				}
+			}
+		}
 		for _, mr := range mapRangesIn(p.Fn) {
 			if stripValue(mr.Range.X) != v {
 				continue
